@@ -779,6 +779,37 @@ impl Space for CalendarAnnotationLists {
     }
 }
 
+/// Every calendar the library knows (and two it does not) as the annotation of every kind of string: the value
+/// carries the calendar that was named.
+struct CalendarNames;
+const CALENDAR_NAME_BASES: [&str; 7] = ["2020-02-29", "2020-02-29T12:30", "T12:30", "2020-02-29T12:30Z", "2020-02-29T12:30+00:00[UTC]", "1972-02-29", "2024-03-10T00:00-05:00[America/New_York]"];
+impl Space for CalendarNames {
+    fn name(&self) -> String {
+        "c12.calendar_names".into()
+    }
+    fn len(&self) -> u64 {
+        ((crate::checks::c16::CALENDARS.len() + 2) * CALENDAR_NAME_BASES.len() * 2) as u64
+    }
+    fn block(&self) -> u64 {
+        8
+    }
+    fn eval(&self, i: u64, out: &mut Out) {
+        let n = crate::checks::c16::CALENDARS.len();
+        let ix = unrank(i, &[CALENDAR_NAME_BASES.len() as u64, (n + 2) as u64, 2]);
+        let cal = if ix[1] < n { crate::checks::c16::CALENDARS[ix[1]].0 } else { ["julian", "gregorian"][ix[1] - n] };
+        let s = format!("{}[{}u-ca={}]", CALENDAR_NAME_BASES[ix[0]], if ix[2] == 1 { "!" } else { "" }, cal);
+        out.nontrivial += 1;
+        judge(out, &s, &DATE_GOALS);
+        if ix[0] == 0 && ix[2] == 0 {
+            // the bare name and the annotated date as a calendar
+            judge(out, cal, &[Goal::Calendar]);
+        }
+    }
+    fn describe(&self) -> serde_json::Value {
+        json!({"calendars": crate::checks::c16::CALENDARS.len() + 2, "bases": CALENDAR_NAME_BASES, "critical_flag": 2})
+    }
+}
+
 /// Zoned strings under all four offset options: offsets with seconds and fractions of a second, both signs,
 /// against fixed-offset zone annotations (the value is the wall-clock time minus the offset under `use`,
 /// the zone's own reading under `ignore`, a match or a RangeError under `reject`, a match or the zone under `prefer`).
@@ -1065,6 +1096,7 @@ pub fn spaces(env: &Env) -> Vec<Box<dyn Space>> {
         Box::new(Mutations { double: false }),
         Box::new(DateProduct),
         Box::new(CalendarAnnotationLists::new()),
+        Box::new(CalendarNames),
         Box::new(ZonedOffsetOptions),
         Box::new(TailProduct { dates: if quick { vec!["2020-02-29", ""] } else { vec!["2020-02-29", "", "20200229", "+275760-09-13", "-271821-04-20", "1972-02", "--12-31", "2021-02-29"] } }),
         Box::new(DurationProduct { values: if quick { vec!["", "1", "4294967296"] } else { vec!["", "0", "1", "4294967295", "4294967296"] } }),
